@@ -65,7 +65,7 @@ class Abs(object):
         a.edges = list(self.edges)
         return a
 
-    def enabled(self):
+    def enabled(self, pairs=True):
         out = []
         row = self.delta.get(self.m, {})
         sta, role, artim, conn = self.m
@@ -91,6 +91,20 @@ class Abs(object):
                         out += ['P:c3n', 'P:c1']      # any P-DATA-TF outside an established association
                 if 'Evt12' in row:
                     out.append('P:half')
+                # the same PDU with the peer's close already visible at the same poll
+                singles = [x for x in out if x.startswith('P:') and x not in ('P:half', 'P:rest')]
+                out += [x + '+close' for x in singles]
+                if pairs:
+                    # two PDUs in one segment, the second from a small set, with the close visible as well
+                    for x in singles:
+                        b = self.clone()
+                        b.apply(x)
+                        en2 = b.enabled(pairs=False)
+                        for y in ('P:c3n', 'P:rel_rq', 'P:abort_u', 'P:rel_rp', 'P:d2'):
+                            if y in en2:
+                                out.append('PP:%s,%s+close' % (x, y))
+                                if y in ('P:c3n', 'P:d2'):
+                                    out.append('PP:%s,%s' % (x, y))
             if 'Evt17' in row:
                 out.append('close')
         if artim:
@@ -111,6 +125,26 @@ class Abs(object):
         sta = self.m[0]
         mevs = []
         conc = None
+        if a.startswith('PP:'):
+            # two PDUs arriving in one segment (optionally with the close already visible)
+            glue = a.endswith('+close')
+            x, y = (a[3:-6] if glue else a[3:]).split(',')
+            c1, o1 = self.apply(x)
+            if y not in self.enabled():
+                raise common.HarnessError('second PDU %s of %s not enabled' % (y, a))
+            c2, o2 = self.apply(y + '+close' if glue else y)
+            return (c2[0], c1[1] + c2[1]), o1 + o2
+        if a.endswith('+close'):
+            conc, outs = self.apply(a[:-6])
+            conc = ('bytes_close', conc[1])
+            if 'Evt17' in self.delta.get(self.m, {}) and self.m[3] == 'open':
+                o, nxt = self.delta[self.m]['Evt17']
+                self.edges.append((self.m, 'Evt17'))
+                outs = outs + list(o)
+                self.m = nxt
+                if not self.m[2]:
+                    self.remaining = None
+            return conc, outs
         if a == 'P:rq':
             conc, mevs = ('pdu', e2.std_rq()), ['Evt6']
         elif a == 'P:ac':
@@ -250,9 +284,10 @@ def check_history(role, hist, delta, deviations=None):
         _invariants(env, st, i, viol, hist)
         wire = e2.summarize_wire(st['wire'])
         sta = st['state'] + 1
-        if any(w[0] == 'P-DATA-TF' for w in wire) and prev_state not in (6, 8):
+        multi_pdu = 0 < i <= len(hist) and hist[i - 1].startswith('PP:')   # two PDUs in one step: lock-step comparison covers it
+        if not deviations and not multi_pdu and any(w[0] == 'P-DATA-TF' for w in wire) and prev_state not in (6, 8):
             viol.append(('c05:inv:pdata-sent-outside-association', 'P-DATA-TF sent from Sta%s (%s)' % (prev_state, where)))
-        if any(x[0] == 'DIMSE' for x in st['inds']) and prev_state not in (6, 7):
+        if not deviations and not multi_pdu and any(x[0] == 'DIMSE' for x in st['inds']) and prev_state not in (6, 7):
             viol.append(('c05:inv:pdata-indicated-outside-association', 'DIMSE message indicated from Sta%s (%s)' % (prev_state, where)))
         if over and st['inds']:
             viol.append(('c05:inv:indication-after-end', 'indication %r after the association was over (%s, step %d)' % (st['inds'], where, i)))
@@ -285,14 +320,14 @@ def check_history(role, hist, delta, deviations=None):
             if [x[0] for x in st['inds']] != exp_ind:
                 viol.append((tag + ':indication', 'event %s in Sta%s: indications %r, model %r (%s)' % (aev, prev_state, st['inds'], exp_ind, where)))
             else:
-                if aev == 'P:abort_p' and st['inds'] and st['inds'][0][0] == 'A-ABORT' and 'ind:A-ABORT' in outs and st['inds'][0][1:] != (2, 1):
+                if aev.startswith('P:abort_p') and st['inds'] and st['inds'][0][0] == 'A-ABORT' and 'ind:A-ABORT' in outs and st['inds'][0][1:] != (2, 1):
                     viol.append((tag + ':abort-indication-fields', 'received A-ABORT (2,1) indicated as %r (%s)' % (st['inds'][0], where)))
-                if aev == 'P:rj' and st['inds'] and st['inds'][0][0] == 'A-ASSOCIATE-RJ' and st['inds'][0][1:] != (2, 1, 3):
+                if aev.startswith('P:rj') and st['inds'] and st['inds'][0][0] == 'A-ASSOCIATE-RJ' and st['inds'][0][1:] != (2, 1, 3):
                     viol.append((tag + ':rj-indication-fields', 'received RJ (2,1,3) indicated as %r (%s)' % (st['inds'][0], where)))
                 for x in st['inds']:
                     if x[0] == 'DIMSE' and x[1:3] != ('CStoreRQMessage', 3):
                         viol.append((tag + ':dimse-content', 'reassembled message %r (%s)' % (x, where)))
-            if aev != 'close' and ('close' in st['log']) != ('close' in outs):
+            if aev != 'close' and not aev.endswith('+close') and not aev.startswith('PP:') and ('close' in st['log']) != ('close' in outs):
                 viol.append((tag + ':close', 'event %s in Sta%s: transport %s, model says %s (%s)' % (
                     aev, prev_state, 'closed' if 'close' in st['log'] else 'not closed', 'close' if 'close' in outs else 'keep', where)))
             if (sta, st['timer'], st['sock']) != (m[0], m[2], m[3]):
@@ -324,12 +359,69 @@ def expand(args):
         viol, canon, a2, sig = check_history(role, child, delta)
         ndev = 0
         if len(child) < dev_len and not viol:
-            for ev2 in a2.enabled():
+            for ev2 in a2.enabled(pairs=False):
+                if ev2.endswith('+close'):
+                    continue
                 n, _, dviol = deviate((role, child + [ev2], dev_bound, heads0))
                 ndev += n
                 viol = viol + [(s, m) for s, m, _ in dviol]
         out.append((child, (canon, a2.key()), viol, sig, a2.edges[len(a.edges):], 1, ndev))
+    # two environment events becoming visible at the same instant: one from the peer, one from the local user
+    en = a.enabled()
+    peers = [x for x in en if x.startswith('P:') and not x.endswith('+close') and x not in ('P:half', 'P:rest')] + [x for x in en if x == 'close']
+    peers = [x for x in peers if not x.startswith('PP:')]
+    users = [x for x in en if x.startswith('U:')]
+    nsim = 0
+    for pe in peers:
+        for ue in users:
+            nsim += 1
+            v = check_simultaneous(role, hist, pe, ue, delta)
+            if v:
+                out.append((hist + [pe + '|' + ue], None, v, (), [], 0, 0))
+    if nsim:
+        out.append((hist, None, [], (), [], 0, nsim))
     return out
+
+
+def check_simultaneous(role, hist, pe, ue, delta):
+    """Peer event `pe` and user primitive `ue` become visible at the same loop head after `hist`; the aggregated
+    observation must equal the model's outcome for one of the two orders."""
+    a, conc0, _ = _expected_of(hist, role, delta)
+    exps = []
+    concs = None
+    for first, second in ((pe, ue), (ue, pe)):
+        b = a.clone()
+        c1, o1 = b.apply(first)
+        if second not in b.enabled():
+            # the second event is no longer defined after the first (e.g. a user primitive after the peer's abort): ignored
+            exps.append((o1, b.m))
+            if first == pe:
+                concs = [c1, a.clone().apply(ue)[0]]
+            continue
+        c2, o2 = b.apply(second)
+        exps.append((o1 + o2, b.m))
+        if first == pe:
+            concs = [c1, c2]
+    env = e2.Env(role, conc0 + [('multi', concs)]).run()
+    fin = env.final
+    steps = env.steps[len(hist) + 1:]
+    wire = [w[0] for st in steps for w in e2.summarize_wire(st['wire'])]
+    inds = [x for st in steps for x in st['inds']]
+    obs = (wire, [x[0] for x in inds], (fin['state'] + 1, fin['timer'], fin['sock']))
+    match = False
+    for outs, m in exps:
+        ew = [o[5:].replace('(provider)', '') for o in outs if o.startswith('send:')]
+        ei = ['A-ABORT' if o[4:] == 'A-P-ABORT' else o[4:] for o in outs if o.startswith('ind:')]
+        if obs == (ew, ei, (m[0], m[2], m[3])):
+            match = True
+    if any(x[0] == 'DIMSE' and x[1:3] != ('CStoreRQMessage', 3) for x in inds):
+        match = False
+    if fin['status'] != 'quiescent-end' or not match:
+        return [('c05:simultaneous:%s|%s@Sta%d' % (pe, ue, a.m[0]),
+                 'peer event %s and user primitive %s visible at the same poll in Sta%d: status %s, observed %r (indications %r); the '
+                 'protocol machine allows %r (either order) (role=%s history=%r)' % (
+                     pe, ue, a.m[0], fin['status'] + (' ' + str(fin['exc']) if fin['exc'] else ''), obs, inds, exps, role, hist))]
+    return []
 
 
 def deviate(args):
@@ -368,6 +460,9 @@ def _delta():
 def run_case(case):
     common.import_repo()
     delta = _delta()
+    if case.get('simultaneous'):
+        pe, ue = case['simultaneous'].split('|')
+        return {'viol': check_simultaneous(case['role'], case['hist'], pe, ue, delta), 'case': case}
     dev = {p: True for p in case.get('dev', [])} or None
     viol, canon, a, sig = check_history(case['role'], case['hist'], delta, deviations=dev)
     if dev:
@@ -411,6 +506,10 @@ def main(tier, seed):
                     for child, key, viol, sig, new_edges, n, ndev in res:
                         total_exec += n
                         dev_exec += ndev
+                        if key is None:
+                            for s, m in viol:
+                                rep.add(common.Viol(s, m, {'role': role, 'hist': child[:-1], 'simultaneous': child[-1]}))
+                            continue
                         sigs.add(sig[-2:] if len(sig) > 1 else sig)
                         edges_cov.update(new_edges)
                         for s, m in viol:
@@ -430,7 +529,7 @@ def main(tier, seed):
     not_covered = sorted(reachable_edges - edges_cov)
     rep.coverage.update({
         'states': seen_all, 'transitions': total_exec, 'traces_validated_against_impl': total_exec,
-        'deviation_executions': dev_exec, 'deviation_bound_completed': dev_bound,         'deviation_history_max_len': dev_len,
+        'deviation_and_simultaneous_executions': dev_exec, 'deviation_bound_completed': dev_bound,         'deviation_history_max_len': dev_len,
         'model_states': stats['model_states'], 'model_transitions': stats['model_transitions'],
         'model_edges_exercised': len(reachable_edges & edges_cov), 'model_edges_not_exercised': [repr(e) for e in not_covered],
         'fixpoint_depth': depth_closed, 'depth_cap': max_depth,
@@ -439,7 +538,9 @@ def main(tier, seed):
         'rule': 'BFS over histories of abstract environment events (peer PDUs of all 7 types, 5 P-DATA flavours in protocol order, '
                 'unknown PDU, half PDU + rest, close, non-expiring 4 s advance, ARTIM expiry, every user primitive the model enables) '
                 'for both roles; every history is replayed on a fresh real provider; states are deduplicated on the canonical '
-                'provider state + abstract environment state; the search stops at its fixpoint (frontier empty) or at the depth cap',
+                'provider state + abstract environment state; the search stops at its fixpoint (frontier empty) or at the depth cap; '
+                'every peer PDU is also delivered with the peer\'s close already visible, and every (peer event, user primitive) pair enabled in a '
+                'reached state is also made visible at the same poll (either order of the model accepted)',
         'tlc': stats, 'exhaustive': all(v is not None for v in depth_closed.values()),
     })
     rep.coverage['note_on_unexercised_edges'] = ('Sta4 is transient in this implementation (AE-1 and AE-2 run in consecutive loop '
